@@ -196,6 +196,10 @@ func (handler *Handler) loadByteArray(source []byte) (net1 *dhcpSubnet, net2 *dh
 		}
 	}
 
+	if table.Leases != nil && (net1 == nil || net2 == nil) { // damaged file: leases without their subnets
+		return nil, nil, nil, fmt.Errorf("lease file has leases but no subnet configuration")
+	}
+
 	tt := map[string]*Lease{}
 
 	// Careful: Yaml does not set private fields in unmarshaled structured.
